@@ -95,6 +95,40 @@ def packed_slots(init, env, prog, scheme):
         return ('failed', type(e).__name__)
 
 
+def unpacked_slots(init, env, prog, scheme, root_field=False):
+    """every packable slot of the final stack is PACKed and read back with UNPACK <its type under the annotation scheme>; the results as Micheline.
+    root_field: additionally a field annotation on the type argument itself (not valid everywhere: such a program may be refused, but must not answer differently)"""
+    from pytezos.michelson.instructions.base import MichelsonInstruction
+    from pytezos.michelson.stack import MichelsonStack
+    try:
+        stack = MichelsonStack([vmreplay.make_item(t, v) for (t, v) in init])
+        ctxt = vmreplay.make_context(env)
+        for i in prog:
+            MichelsonInstruction.match(vmreplay.terms.instr_json(i)).execute(stack, [], ctxt)
+    except Exception as e:   # noqa
+        return ('failed', type(e).__name__)
+    out = []
+    for item in stack.items:
+        try:
+            data = item.pack()
+        except Exception:
+            out.append(None)
+            continue
+        tj = vmreplay.terms.strip_annots(type(item).as_micheline_expr())
+        if scheme:
+            tj = annotate_type(tj, scheme)
+        if root_field:
+            tj = dict(tj, annots=sorted(tj.get('annots', []) + ['%root']))
+        try:
+            from pytezos.michelson.types import BytesType
+            st2 = MichelsonStack([BytesType.from_value(data)])
+            MichelsonInstruction.match({'prim': 'UNPACK', 'args': [tj]}).execute(st2, [], ctxt)
+            out.append(json.dumps(st2.items[0].to_micheline_value(mode='optimized'), sort_keys=True))
+        except Exception as e:   # noqa
+            out.append(('failed', type(e).__name__))
+    return out
+
+
 def replay_fn(ctx, prop, fname, st):
     init, env, prog = st['init'], st['env'] if isinstance(st['env'], dict) else {}, st['hist']
     base = vmreplay.classify(st['status'], st['stack'], st['failv'], vmreplay.run_impl(init, env, prog))
@@ -103,6 +137,20 @@ def replay_fn(ctx, prop, fname, st):
     bad = None
     # serialization clause: PACK bytes of the final stack must not depend on annotations (families whose values are pairs / combs)
     base_packed = packed_slots(init, env, prog, None) if (st['status'] == 'running' and fname in ('comb', 'annot_keys', 'adt')) else None
+    if base_packed is not None:
+        base_unp = unpacked_slots(init, env, prog, None)
+        case = {'family': fname, 'init': to_json(init), 'env': to_json(env), 'hist': to_json(prog), 'status': st['status'], 'stack': to_json(st['stack']), 'failv': to_json(st['failv'])}
+        for scheme, root in (('both-all', False), ('field-inner-pairs', False), (None, True), ('type-all', True)):
+            got = unpacked_slots(init, env, prog, scheme, root)
+            ctx.count((fname, init, prog, 'unpack', scheme, root), nontrivial=True)
+            same = got == base_unp or (root and isinstance(got, list) and isinstance(base_unp, list) and len(got) == len(base_unp) and
+                                       all(g == b_ or (isinstance(g, tuple) and g[0] == 'failed') for g, b_ in zip(got, base_unp)))
+            if not same:
+                ctx.mismatch('C17:annotated:%s%s:UNPACK-result-differs' % (scheme, ':root-field' if root else ''),
+                             'family %s program %s on %s: UNPACK of the packed final stack at the types annotated by scheme %s%s gives %s, without annotations %s' % (
+                                 fname, json.dumps(to_json(prog)), json.dumps(to_json(init)), scheme, ' plus a field annotation on the type argument' if root else '', got, base_unp),
+                             dict(case, scheme=scheme))
+                bad = 'unpack'
     for scheme in SCHEMES:
         if base_packed is not None:
             ann_packed = packed_slots(init, env, prog, scheme)
@@ -129,7 +177,7 @@ def replay_fn(ctx, prop, fname, st):
 def run(ctx):
     ctx.rule = ('every program of the comb / adt / option-list / typed-collection families (see C01, C02) is run once without annotations and once per annotation scheme '
                 '(field annotations everywhere, type annotations everywhere, both, field / type annotation only on inner pairs of right combs) applied to the types of the '
-                'initial stack and to every type argument of the program; result, failure and runtime types (annotations stripped) must equal the annotation-free model run')
+                'initial stack and to every type argument of the program; result, failure and runtime types (annotations stripped) must equal the annotation-free model run; PACK bytes of the final stack and UNPACK of them at annotated types must not depend on the annotations')
     ctx.assumptions = ['the model is annotation free by construction (Leg A is C01/C02\'s TypePreservation); packed bytes under annotations are checked in C04',
                        'programs whose un-annotated run already disagrees with the model are left to C01/C02']
     fams = {}
